@@ -1036,7 +1036,10 @@ coder_init(file_pair *pair)
 /// larger than opt_block_size. If this is the case for the current Block
 /// at *list_pos, then we break into smaller Blocks. Otherwise advance
 /// to the next Block in opt_block_list, and break apart if needed.
-static void
+///
+/// \return     On success false is returned. If changing the filter chain
+///             fails, an error message is printed and true is returned.
+static bool
 split_block(uint64_t *block_remaining,
 	    uint64_t *next_block_remaining,
 	    size_t *list_pos)
@@ -1084,11 +1087,17 @@ split_block(uint64_t *block_remaining,
 					// lzma_stream_encoder_mt_memusage().
 					// Some options are not validated until
 					// the encoders are initialized.
-					message_fatal(
+					//
+					// The target file is open and incomplete
+					// so this must not exit the program:
+					// the caller has to get a chance
+					// to remove the file.
+					message_error(
 						_("Error changing to "
 						"filter chain %u: %s"),
 						chain_num,
 						message_strm(ret));
+					return true;
 				}
 			}
 		}
@@ -1105,6 +1114,8 @@ split_block(uint64_t *block_remaining,
 			*block_remaining = opt_block_size;
 		}
 	}
+
+	return false;
 }
 #endif
 
@@ -1252,9 +1263,10 @@ coder_normal(file_pair *pair)
 					assert(opt_block_size > 0);
 					block_remaining = opt_block_size;
 				} else {
-					split_block(&block_remaining,
+					if (split_block(&block_remaining,
 							&next_block_remaining,
-							&list_pos);
+							&list_pos))
+						break;
 				}
 			}
 
